@@ -12,7 +12,7 @@ package kmsg
 //	0: minimal   arrays empty, strings empty, nullable = null, tagged = default, no unknown tags
 //	1: maximal   arrays 1, strings 1, nullable set, every tagged field set, one unknown tag per struct
 //	2: plain     arrays 1, strings 2, nullable set, tagged default, no unknown tags
-//	3,4: mixed   every decision from a hash of (seed, profile, decision id)
+//	3,4,7..: mixed  every decision from a hash of (seed, profile, decision id)
 //	5: wide      arrays 2, strings 1, nullable set, tagged set, no unknown tags
 //	6: boundary  like 1, but the first string/bytes of the value has 127 and the second 128 bytes
 //	             (compact length prefix grows from one to two bytes at 127)
